@@ -65,6 +65,8 @@ def run(project: Project, rep, tier: str):
                                             f"whose dtype is inherited from the caller's data")
     # the coordinates themselves are never rounded to single precision (rules/narrow_rule.py): the direction table is float32
     # by construction, the diagrams are not — invariance under diagonal translation is exact only on the numbers given
+    from .common import numerics_positive_examples
+    rep.extra["positive_examples"] = numerics_positive_examples()
     from . import narrow_rule
     hits, st_ = narrow_rule.analyse(project, mod, SW)
     for h in hits:
